@@ -17,7 +17,7 @@ WORKERS = {"quick": 8, "thorough": 16}
 SHRINK_KEY = ["probes", "ops"]
 RULE = (
     "case = (scenario, action prefix reaching a state with nodes off/booting, services stopped, files deleted, software "
-    "uninstalled, then a list of probes). A probe is (i) a path of the live request tree "
+    "uninstalled, declared-OFF nodes powered on, a folder with files deleted; then a list of probes). A probe is (i) a path of the live request tree "
     "(get_request_types_recursively) with templated leaf arguments, (ii) a mutation of such a path - element at depth k "
     "replaced by a missing / misspelt / other-kind name, or the path cut at a manager - or (iii) the request formed by "
     "a registered action type for an existing or missing component (ActionManager.form_request). Every probe is applied "
@@ -185,17 +185,76 @@ def run_case(case: Dict) -> CaseResult:
                 if opts.get("node_name") == node.config.hostname and name in (opts.get("service_name"), opts.get("application_name")) \
                         and not act.endswith(("-install", "-remove")):
                     extra_probes.append(["action", idx])
+    # reachable state "declared OFF, then powered on": components attached while the node was off must be addressable
+    # once it is on (interfaces, services, applications, file system)
+    if case.get("wake"):
+        woken = []
+        for n in net.nodes.values():
+            if n.operating_state.name == "OFF":
+                try:
+                    sim.apply_request(["network", "node", n.config.hostname, "startup"])
+                except Exception as e:
+                    res.violate(f"raise:startup:{exc_sig(e)}", f"startup of {n.config.hostname}: {exc_msg(e)}")
+                    return res
+                woken.append(n)
+        if woken:
+            a0 = next((k for k, v in am.action_map.items() if v[0] == "do-nothing"), 0)
+            for _ in range(5):
+                if all(n.operating_state.name == "ON" for n in woken) or \
+                        d.steps_in_episode >= env.game.options.max_episode_length:
+                    break
+                try:
+                    env.step(a0)
+                    d.steps_in_episode += 1
+                except Exception:
+                    res.label("prefix_raised")
+                    break
+            names = {n.config.hostname for n in woken if n.operating_state.name == "ON"}
+            if names:
+                res.label("woke_declared_off_node")
+            for idx, (act, opts) in am.action_map.items():
+                tgt = opts.get("node_name") or opts.get("target_nodename") or opts.get("target_router") or opts.get("target_firewall_nodename")
+                if tgt in names and act not in ("node-shutdown", "node-startup", "node-reset"):
+                    extra_probes.append(["action", idx])
+    # reachable state "files deleted": delete a folder that holds files, then address the folder and its files through
+    # the handler-parameter requests (file_system restore|delete file <folder> <file>, access): the folder does not exist
+    # any more (that is what the simulator itself answers), so none of them may be answered 'success' or change anything
+    raw_probes: List[List] = []
+    if case.get("fsdel") is not None:
+        hosts = [n for n in net.nodes.values() if n.operating_state.name == "ON" and getattr(n, "file_system", None) is not None]
+        cands = [(n, f) for n in hosts for f in n.file_system.folders.values() if f.files and f.name != "root"]
+        if cands:
+            node, fol = cands[case["fsdel"] % len(cands)]
+            fnames = [x.name for x in fol.files.values()]
+            base = ["network", "node", node.config.hostname, "file_system"]
+            try:
+                r = sim.apply_request(base + ["delete", "folder", fol.name])
+            except Exception as e:
+                res.violate(f"raise:delete-folder:{exc_sig(e)}", f"{base} delete folder {fol.name}: {exc_msg(e)}")
+                return res
+            if r.status == "success" and node.file_system.get_folder(fol.name) is None:
+                res.label("deleted_folder_with_files")
+                for fn in fnames[:2]:
+                    raw_probes.append(["raw", base + ["restore", "file", fol.name, fn]])
+                    raw_probes.append(["raw", base + ["delete", "file", fol.name, fn]])
+                    raw_probes.append(["raw", base + ["access", fol.name, fn]])
+                    raw_probes.append(["raw", base + ["folder", fol.name, "file", fn, "scan"]])
     paths = live_paths(sim)
     if not paths:
         return res
     nt_keys = set()
     non_initial = d.total_steps > 0
-    for j, pr in enumerate(extra_probes[:12] + list(case["probes"])):
+    for j, pr in enumerate(raw_probes + extra_probes[:40] + list(case["probes"])):
         kind = pr[0]
         expect_reachable = None
         missing = None
         tmpl = None
-        if kind == "action":
+        if kind == "raw":
+            req = list(pr[1])
+            tmpl = "deleted-folder:" + "/".join(str(x) for x in req[4:-2] if x not in (req[-2], req[-1]))
+            mut = "none"
+            known_args = True
+        elif kind == "action":
             idx = pr[1] % len(am.action_map)
             act, opts = am.action_map[idx]
             try:
@@ -242,10 +301,10 @@ def run_case(case: Dict) -> CaseResult:
         tr = reqtrace.stop()
         rkind, depth_ret, detail = reqtrace.summary(tr)
         if raised is not None:
-            if rkind == "leaf" and kind != "action" and not known_args:
+            if rkind == "leaf" and kind not in ("action", "raw") and not known_args:
                 res.label("leaf_arg_mismatch")
                 continue
-            if rkind == "leaf" and kind != "action":
+            if rkind == "leaf" and kind not in ("action", "raw"):
                 # a leaf reached through a live path with templated arguments raised: argument shapes are outside the
                 # property's domain unless the request came from an action class
                 res.label("leaf_raised_on_templated_args")
@@ -279,6 +338,12 @@ def run_case(case: Dict) -> CaseResult:
                             f"probe#{j} request {req} was stopped by {rkind} at depth {depth_ret} but describe_state changed")
             if depth_ret >= 2 and non_initial:
                 nt_keys.add((tmpl, mut, depth_ret, rkind))
+        if kind == "raw":
+            if resp.status in ("success", "pending"):
+                res.violate(f"deleted-folder-answered-{resp.status}:{tmpl}",
+                            f"probe#{j} request {req} names a folder that was deleted (it is not in the live set), yet -> {rkind}/{resp.status}")
+            elif before != after:
+                res.violate(f"deleted-folder-request-changed-state:{tmpl}", f"probe#{j} request {req} -> {resp.status} but describe_state changed")
         if kind == "action" and missing and resp.status in ("success", "pending"):
             res.violate(f"missing-{missing}-answered-{resp.status}:{tmpl}",
                         f"probe#{j} {tmpl} {opts}: the {missing} it names does not exist, yet request {req} -> {rkind}/{resp.status}")
@@ -312,6 +377,8 @@ def gen_case(draw):
     c = draw(gen_case_strategy(max_ops=12))
     c["probes"] = draw(st.lists(probe_strategy(), min_size=10, max_size=60))
     c["uninstall"] = draw(st.lists(st.tuples(st.integers(0, 5), st.integers(0, 20)).map(list), max_size=2))
+    c["wake"] = draw(st.booleans())
+    c["fsdel"] = draw(st.sampled_from([None, 0, 1, 2, 3, 5]))
     return c
 
 
